@@ -16,11 +16,11 @@ EXTENDS Topic, Json, IOUtils
 Traces == JsonDeserialize(IOEnv.TRACE_FILE)
 NT == Len(Traces)
 
-VARIABLES ti, l, tp, o, bad, badpos, drift, driftpos
-vars == <<ti, l, tp, o, bad, badpos, drift, driftpos>>
+VARIABLES ti, l, tp, o, bad, badpos, kbad, kpos, drift, driftpos
+vars == <<ti, l, tp, o, bad, badpos, kbad, kpos, drift, driftpos>>
 
 Obs0(T) == [ord |-> T.order0, act |-> T.order0, st |-> <<0, 0>>]
-O0(T) == [want |-> <<>>, got |-> <<>>, prev |-> Obs0(T)]
+O0(T) == [want |-> <<>>, got |-> <<>>, lost |-> {}, prev |-> Obs0(T)]
 Dummy == [lat |-> 0, order0 |-> <<>>]
 TrOr(i) == IF i <= NT THEN Traces[i] ELSE Dummy
 
@@ -49,44 +49,57 @@ StateDiff(tt, N) ==
     ELSE IF N.st # <<tt.npub, tt.ndel>> THEN "MODEL:state_stats"
     ELSE ""
 
-ApplyO(oo, r) ==
-    CASE r.a = "pub" -> [o |-> [oo EXCEPT !.want = Append(@, SeqSet(oo.prev.act))], b |-> ""]
+\* Signature of the known defect "stale_now_after_yield": the engine dropped the delivery event of publish k
+\* for a subscriber active at publish time, and the event carried the instant of the publish call itself
+\* although the topic waits a non-zero latency per subscriber.  Every other loss stays a violation.
+Wanted(oo, r) == r.k <= Len(oo.want) /\ r.c \in oo.want[r.k].A
+StaleDiscard(oo, r, lat) == r.a = "disc" /\ Wanted(oo, r) /\ lat > 0 /\ r.x = oo.want[r.k].t0 /\ r.x < r.t
+
+ApplyO(oo, r, lat) ==
+    CASE r.a = "pub" -> [o |-> [oo EXCEPT !.want = Append(@, [A |-> SeqSet(oo.prev.act), t0 |-> r.t])], b |-> ""]
       [] r.a = "recv" ->
            [o |-> [oo EXCEPT !.got = Append(@, <<r.k, r.c>>)],
-            b |-> IF r.k <= Len(oo.want) /\ r.c \in oo.want[r.k] /\ Count(oo.got, <<r.k, r.c>>) >= 1
+            b |-> IF Wanted(oo, r) /\ Count(oo.got, <<r.k, r.c>>) >= 1
                   THEN "PROP:topic_message_delivered_twice" ELSE ""]
+      [] r.a = "disc" ->
+           IF ~Wanted(oo, r) THEN [o |-> oo, b |-> ""]
+           ELSE [o |-> [oo EXCEPT !.lost = @ \cup {<<r.k, r.c>>}],
+                 b |-> IF StaleDiscard(oo, r, lat) THEN "" ELSE "PROP:topic_delivery_event_discarded"]
       [] r.a = "end" ->
            [o |-> oo,
-            b |-> IF r.x = 1 /\ \E k \in 1..Len(oo.want) : \E c \in oo.want[k] : Count(oo.got, <<k, c>>) = 0
+            b |-> IF r.x = 1 /\ \E k \in 1..Len(oo.want) : \E c \in oo.want[k].A :
+                                   Count(oo.got, <<k, c>>) = 0 /\ <<k, c>> \notin oo.lost
                   THEN "PROP:topic_message_not_received" ELSE ""]
       [] OTHER -> [o |-> oo, b |-> ""]
 
 Start(i) ==
     /\ tp' = InitT(TrOr(i).lat, TrOr(i).order0) /\ o' = O0(TrOr(i))
-    /\ ti' = i /\ l' = 1 /\ bad' = "" /\ badpos' = 0 /\ drift' = "" /\ driftpos' = 0
+    /\ ti' = i /\ l' = 1 /\ bad' = "" /\ badpos' = 0 /\ kbad' = "" /\ kpos' = 0 /\ drift' = "" /\ driftpos' = 0
 
 Init ==
-    /\ ti = 1 /\ l = 1 /\ bad = "" /\ badpos = 0 /\ drift = "" /\ driftpos = 0
+    /\ ti = 1 /\ l = 1 /\ bad = "" /\ badpos = 0 /\ kbad = "" /\ kpos = 0 /\ drift = "" /\ driftpos = 0
     /\ tp = InitT(TrOr(1).lat, TrOr(1).order0) /\ o = O0(TrOr(1))
 
 Step ==
     LET T == Traces[ti]
         r == T.log[l]
-        ao == ApplyO(o, r)
+        ao == ApplyO(o, r, T.lat)
         dt == IF r.t < tp.clock THEN "MODEL:time_backwards"
               ELSE IF r.t > tp.clock /\ TUrgent(tp) THEN "MODEL:internal_event_skipped" ELSE ""
         am == ApplyM(TSetClock(tp, r.t), r)
         d == IF dt # "" THEN dt ELSE IF am.d # "" THEN am.d ELSE StateDiff(am.s, r.o)
     IN /\ o' = [ao.o EXCEPT !.prev = r.o]
        /\ IF bad = "" /\ ao.b # "" THEN bad' = ao.b /\ badpos' = l ELSE UNCHANGED <<bad, badpos>>
+       /\ IF kbad = "" /\ StaleDiscard(o, r, T.lat)
+          THEN kbad' = "PROP:topic_delivery_discarded_stale_stamp" /\ kpos' = l ELSE UNCHANGED <<kbad, kpos>>
        /\ IF drift # "" THEN UNCHANGED <<tp, drift, driftpos>>
           ELSE IF d # "" THEN drift' = d /\ driftpos' = l /\ UNCHANGED tp
           ELSE tp' = am.s /\ UNCHANGED <<drift, driftpos>>
        /\ l' = l + 1 /\ ti' = ti
 
 Finish ==
-    LET v == IF bad # "" THEN bad ELSE IF drift # "" THEN drift ELSE "ACCEPT"
-        pos == IF bad # "" THEN badpos ELSE IF drift # "" THEN driftpos ELSE l - 1
+    LET v == IF bad # "" THEN bad ELSE IF kbad # "" THEN kbad ELSE IF drift # "" THEN drift ELSE "ACCEPT"
+        pos == IF bad # "" THEN badpos ELSE IF kbad # "" THEN kpos ELSE IF drift # "" THEN driftpos ELSE l - 1
     IN /\ PrintT(<<"V", Traces[ti].id, v, pos>>) /\ PrintT(<<"C", Traces[ti].id, IF drift = "" THEN "OK" ELSE drift, driftpos>>)
        /\ Start(ti + 1)
 
